@@ -178,7 +178,7 @@ func c02Done(c *Ctx) *RuleResult {
 	if ifs != nil && terminates(info, ifs.Body.List) {
 		if be, ok := ast.Unparen(ifs.Cond).(*ast.BinaryExpr); ok && be.Op == token.LOR {
 			l, rr := exprStr(be.X), exprStr(be.Y)
-			if (strings.HasSuffix(l, ".Done") && rr == "err != nil") || (strings.HasSuffix(rr, ".Done") && l == "err != nil") {
+			if (strings.HasSuffix(l, ".Done") && isErrNotNil(info, be.Y)) || (strings.HasSuffix(rr, ".Done") && isErrNotNil(info, be.X)) {
 				if _, isRet := ifs.Body.List[len(ifs.Body.List)-1].(*ast.ReturnStmt); isRet {
 					okShape = true
 				}
@@ -418,6 +418,6 @@ func init() {
 		Level: "other",
 		Explanation: "Structural necessary conditions of 'each waiter gets exactly one faithful final result': a message is done iff the final response exists and the loop returns after it; sends and waits happen with the lock released and every return re-holds it; one store site of the final response, storing the caller's value and waking all waiters; callers pass the worker's own response or a documented scheduler error; wake-up channels are closed before being replaced; waiter counting and the abandonment timer move together; worker reports are only applied under digest equality; the stage function's decision table. Exactly-once under all races is not decided.",
 		Assumptions: []string{"gRPC delivers what Send accepted"},
-		Rules:       []RuleFunc{c02Done, c02Single, c02Wake, schedWaiters, c02Stage, c01Identity},
+		Rules:       []RuleFunc{c02Done, c02Single, c02Wake, schedWaiters, c02Stage, c01Identity, schedDrainLoops, schedParkedRecheck, schedStageWake},
 	})
 }
